@@ -16,7 +16,7 @@ def textCovered : List String :=
 
 theorem text_covered_types :
     textCovered = ["A", "AFSDB", "AVC", "CAA", "CDNSKEY", "CDS", "CNAME", "CSYNC", "DHCID", "DLV", "DNAME", "DNSKEY", "DS", "EID", "EUI48", "EUI64", "GID", "HINFO", "ISDN", "KEY", "KX", "L64", "LP", "MB", "MD", "MF", "MG",
-      "MINFO", "MR", "MX", "NID", "NIMLOC", "NINFO", "NS", "NSAPPTR", "NSEC", "NSEC3PARAM", "OPENPGPKEY", "PTR", "PX", "RESINFO", "RKEY", "RP", "RT", "SOA", "SPF", "SRV",
+      "MINFO", "MR", "MX", "NID", "NIMLOC", "NINFO", "NS", "NSAPPTR", "NSEC", "NSEC3PARAM", "OPENPGPKEY", "PTR", "PX", "RESINFO", "RKEY", "RP", "RT", "SMIMEA", "SOA", "SPF", "SRV",
       "SSHFP", "TA", "TALINK", "TLSA", "TXT", "UID", "UINFO", "URI", "X25", "ZONEMD"] := by
   decide
 
@@ -64,6 +64,10 @@ theorem fits_exist (P Q : List TStep) (h : matchPlans P Q = true) : ∃ vals val
   · rename_i p u q u'
     obtain ⟨v, hv⟩ := hfield p q h
     exact ⟨_, _, Fits.lastRest p q v u u' [65] h hv ⟨by simp, by decide⟩⟩
+  · rename_i p n q u'
+    simp only [Bool.and_eq_true, decide_eq_true_eq] at h
+    obtain ⟨v, hv⟩ := hfield p q h.1
+    exact ⟨_, _, Fits.lastSplit p q v n u' [65] h.1 hv h.2 ⟨by simp, by decide⟩⟩
   · rename_i p q
     obtain ⟨v, hv⟩ := hfield p q h
     exact ⟨_, _, Fits.types p q v [1, 255, 65535] h hv (by decide)⟩
